@@ -209,7 +209,9 @@ theorem sheetCells_total (ctx : Ctx) (bs : Bytes) : sheetCells ctx bs ≠ .outOf
     be the panic of `Range::from_sparse` on the cells that were read without any error — i.e. the recorded
     finding "from_sparse subtracts the first cell's row" (row headers out of order), which is dealt with in
     `lib.rs`, outside the xlsb reader. Missing for the full statement `∀ ctx bs m, decodeSheet ctx bs ≠ .panic m`:
-    a `from_sparse` that does not panic on unsorted rows (then `Range.fromSparse … ≠ .panic m` closes it). -/
+    a `from_sparse` that does not panic on unsorted rows — available since fix D40, see
+    `decodeSheet_no_panic_any_order` below; the only panic left in `Range.fromSparse` is the `u32` overflow of a
+    span `+ 1`, so the full statement now needs a bound on the coordinates of the cells read. -/
 theorem decodeSheet_no_panic_partial (ctx : Ctx) (bs : Bytes) (m : String) (h : decodeSheet ctx bs = .panic m) :
     ∃ cells, sheetCells ctx bs = .ok cells ∧ Range.fromSparse cells = .panic m := by
   unfold decodeSheet at h
@@ -226,6 +228,17 @@ theorem decodeSheet_no_panic_sorted (ctx : Ctx) (bs : Bytes) (cells : List (Nat 
   unfold decodeSheet
   rw [hc]
   exact Range.fromSparse_of_pre cells (sparsePre_of_gridSorted cells hs)
+
+/-- … and since `Range::from_sparse` takes its row bounds as min / max over all cells (fix D40) the row order
+    does not matter any more: whenever the cells read have `u32` coordinates whose row and column spans `+ 1`
+    fit `u32` (`Range.sparsePre`; in any order) there is no panic. What is still missing for the unconditional
+    `∀ ctx bs m, decodeSheet ctx bs ≠ .panic m` is that bound for the cells `sheetCells` returns (the remaining
+    panic of `from_sparse` is the `u32` overflow of `col_end - col_start + 1` for columns 0 and 0xFFFFFFFF). -/
+theorem decodeSheet_no_panic_any_order (ctx : Ctx) (bs : Bytes) (cells : List (Nat × Nat × Val))
+    (hc : sheetCells ctx bs = .ok cells) (hb : Range.sparsePre cells) : ∃ r, decodeSheet ctx bs = .ok r := by
+  unfold decodeSheet
+  rw [hc]
+  exact Range.fromSparse_of_pre cells hb
 
 /-- the record iterator never panics and never hangs, whatever the bytes -/
 theorem records_no_panic (bs : Bytes) (m : String) : records bs ≠ .panic m :=
